@@ -20,6 +20,7 @@ RULE = ("Hypothesis typed structures (1-6 atoms, all four term kinds incl. impro
         "copied within each image with its type and extra fields and nothing else; type tables unchanged; original "
         "unmodified; (1,1,1) is the identity. Non-trivial = (cell tilted or rotated and factors unequal) or the "
         "structure has terms; distinct by hash.")
+RULE += (" Since rounds 9-10: In half of the cases .elements of the original is read before replicating; the supercell's .elements must equal its type table looked up through its per-atom types.")
 ASSUMPTIONS = ["image atoms are identified by (charge tag, lattice offset); atom order in the result is not asserted"]
 
 
